@@ -65,7 +65,8 @@ RULE = (
     "array, 0-d, python int/float/complex, str}; methods/properties: every lifted attribute; wrappers on a "
     "recording python function with random positional/keyword block/array mixes and block counts; reductions with/"
     "without axis, 0/1/2 block arguments; creation with nested/flat/int shapes. A case is non-trivial when a block "
-    "array with >= 2 blocks takes part; distinct by (section, name, family, passing, structure, dtype). Round 2: 23 jax "
+    "array with >= 2 blocks takes part (or one block of rank >= 2 meets a rank-sensitive reduction option: every reduction x "
+    "{keepdims, ord in 1,2,inf,-inf,0,fro,nuc, dtype, initial, where, promote_integers} on single-block arrays of rank 0/2/3); distinct by (section, name, family, passing, structure, dtype). Round 2: 23 jax "
     "transformations of a function of a block array vs the tuple of its blocks; tree_unflatten with 10 kinds of leaf "
     "lists; x[k] = v for random k in [-n-1, n] and value kinds {same dtype, other dtype, list, numpy}; scico.random: "
     "wrapped names (all in thorough, 9 in quick) x 12 argument forms x nested/flat shapes."
@@ -169,6 +170,10 @@ STRUCTS = {
     "f": [(2, 3), (3,), (1, 2), ()],
     "h": [(1, 2, 2), (2, 1, 3)],
     "g": [(2,), (), (1, 3), (2, 2), (3,)],
+    # exactly one block of rank >= 2: "the concatenation of the ravelled blocks" is 1-d, the block is not
+    "s2": [(2, 3)],
+    "s3": [(2, 1, 3)],
+    "s0": [()],
 }
 
 
@@ -433,7 +438,7 @@ def run_call(env, ctx, model, section, kind, fn_id, raw_fn, snp_fn, args, kwargs
     impl = impl_call(snp_fn, args, kwargs)
     nb = nblocks(env, args, kwargs)
     desc = {"section": section, "fn": fn_id, "tag": tag}
-    ctx.case(desc, (section, fn_id, tag) if nb >= 2 else None)
+    ctx.case(desc, (section, fn_id, tag) if (nb >= 2 or "/single/" in tag) else None)
     ctx.count(f"{section}:cases")
     ctx.count(f"{section}:model={'err:' + m[1] if m[0] == 'err' else 'ok'}")
     ctx.count(f"blocks={nb}")
@@ -752,6 +757,31 @@ def section_reductions(env, ctx, model):
                         cases += [("where-array", [x], {"where": True})]
                 for tag, a, k in cases:
                     run_call(env, ctx, model, "reduction", "reduce", fn_id, raw, snp_fn, a, k, f"{name}/{tag}/{st}/{kd}")
+        # a single block of rank 2 / 3 / 0 (and two control structures) x the rank-sensitive options of the reduction:
+        # without `axis` the function must see the 1-d concatenation of the ravelled blocks, never the block itself
+        rparams = inspect.signature(raw).parameters
+        grid = [("plain", {})]
+        if "keepdims" in rparams:
+            grid += [("keepdims", {"keepdims": True}), ("keepdims-false", {"keepdims": False})]
+        if "ord" in rparams:
+            grid += [(f"ord={o}", {"ord": o}) for o in (1, 2, np.inf, -np.inf, 0, "fro", "nuc", None)]
+            grid += [("ord1+keepdims", {"ord": 1, "keepdims": True})]
+        if "dtype" in rparams:
+            grid += [("dtype=f32", {"dtype": np.float32}), ("dtype+keepdims", {"dtype": np.float32, "keepdims": True})]
+        if "initial" in rparams:
+            grid += [("initial", {"initial": 1.5})]
+        if "where" in rparams:
+            grid += [("where-true", {"where": True}), ("where+keepdims", {"where": True, "keepdims": True})]
+        if "promote_integers" in rparams:
+            grid += [("no-promote", {"promote_integers": False})]
+        for st in ("s2", "s3", "s0", "d", "h"):
+            for kd in (("x", "i") if (ctx.thorough or st in ("s2", "s3")) else ("x",)):
+                x = gen_block(env, rng, st, kd)
+                for tag, kw in grid:
+                    run_call(env, ctx, model, "reduction", "reduce", fn_id, raw, snp_fn, [x], dict(kw), f"{name}/single/{tag}/{st}/{kd}")
+                    ctx.count("reduction:single-block-option-grid")
+                if "ord" in rparams:
+                    run_call(env, ctx, model, "reduction", "reduce", fn_id, raw, snp_fn, [x, 1], {}, f"{name}/single/ord1-pos/{st}/{kd}")
         # plain arrays pass through
         arr = gen_array(env, rng, (2, 3), "x")
         run_call(env, ctx, model, "reduction", "reduce", fn_id, raw, snp_fn, [arr], {}, f"{name}/array")
@@ -1207,7 +1237,7 @@ def section_pytree(env, ctx, model):
 
                 ctx.disagree("block.constructor", {"section": "constructor", "fn": op, "inputs": tag}, show_impl(impl), show(env, m, ev), oracle=dtype_oracle)
     # pytree round trips, jit, grad, tree_map
-    for st in STRUCTS:
+    for st in [k for k in STRUCTS if not k.startswith("s")]:
         for kd in ("x", "c", "i"):
             x = gen_block(env, rng, st, kd)
             leaves, treedef = jax.tree_util.tree_flatten(x)
@@ -1446,14 +1476,23 @@ def section_setitem(env, ctx, model):
     the result"""
     rng = ctx.rng
     jnp, BA = env.jnp, env.BlockArray
-    for it in range(ctx.n(30, 200)):
+    dts = [jnp.float64, jnp.float32, jnp.int64, jnp.complex128]
+    # a block array with ONE block may legitimately change its dtype by assignment: x.dtype must follow
+    forced = [(1, d0, kk, d1) for d0 in dts for d1 in dts if d1 is not d0 for kk in (0, -1)]
+    if not ctx.thorough:
+        forced = [forced[int(i)] for i in rng.permutation(len(forced))[:8]]
+    for it in range(len(forced) + ctx.n(30, 200)):
         n = int(rng.integers(1, 5))
-        dts = [jnp.float64, jnp.float32, jnp.int64, jnp.complex128]
         d0 = dts[int(rng.integers(0, 4))]
-        x = BA([jnp.arange(i + 1).astype(d0) for i in range(n)])
         k = int(rng.integers(-n - 1, n + 1))
         r = rng.random()
-        if r < 0.4:
+        if it < len(forced):
+            n, d0, k, d1 = forced[it]
+            r = 2.0
+        x = BA([jnp.arange(i + 1).astype(d0) for i in range(n)])
+        if r == 2.0:
+            v, vtag = jnp.ones(3).astype(d1), "single-block-other-dtype"
+        elif r < 0.4:
             v, vtag = jnp.ones(2).astype(d0), "same-dtype"
         elif r < 0.7:
             v, vtag = jnp.ones(2).astype(dts[(dts.index(d0) + 1 + int(rng.integers(0, 3))) % 4]), "other-dtype"
@@ -1482,6 +1521,8 @@ def section_setitem(env, ctx, model):
                 broken = "a block is not an array"
             elif len({str(b.dtype) for b in blocks}) > 1:
                 broken = "heterogeneous dtypes"
+            elif str(impl[1].dtype) != str(blocks[0].dtype):
+                broken = f"x.dtype is {impl[1].dtype} although the blocks have dtype {blocks[0].dtype}"
             else:
                 # an array that is accepted must be stored as it is (not cast to the dtype of the other blocks)
                 j = k if k >= 0 else k + n
@@ -1490,7 +1531,8 @@ def section_setitem(env, ctx, model):
         agree = (m[0] == "err" and impl == ("err", m[1])) or (m[0] == "ok" and impl[0] == "ok" and len(impl[1].arrays) == len(m[1]["blk"])
                                                              and all(same_or_identical(ev.val(t), impl[1].arrays[i]) for i, t in enumerate(m[1]["blk"])))
         if broken or not agree:
-            fail = {"statement": f"x[{k}] = v", "x_dtype": str(np.dtype(d0)), "n_blocks": n, "value": vtag,
+            fail = {"statement": f"x[{k}] = v", "x_dtype_before": str(np.dtype(d0)), "v_dtype": str(getattr(v, "dtype", type(v).__name__)), "n_blocks": n, "value": vtag,
+                "x_dtype_after": str(impl[1].dtype) if impl[0] == "ok" else None,
                     "result_blocks": [type(b).__name__ + ":" + str(getattr(b, "dtype", "-")) for b in impl[1].arrays] if impl[0] == "ok" else {"err": impl[1]},
                     "violates": broken}
             ctx.disagree("block.setitem", {"section": "setitem", "n": n, "k": k, "value": vtag, "dtype": str(np.dtype(d0))},
@@ -1697,8 +1739,9 @@ def correspond(ctx, model):
 
     env = Env()
     timing = {}
-    for sec in (run_corpus, section_names, section_reductions, section_creation, section_operators, section_methods,
-                section_slices, section_wrappers, section_pytree, section_transparency, section_trees, section_setitem, section_random):
+    # the sections that evaluate the property itself on small objects come first: at most 5 violations are written out
+    for sec in (run_corpus, section_setitem, section_transparency, section_trees, section_names, section_reductions, section_creation,
+                section_operators, section_methods, section_slices, section_wrappers, section_pytree, section_random):
         t0 = time.time()
         try:
             sec(env, ctx, model)
